@@ -38,6 +38,7 @@ func runC17(r *hk.Run) {
 	g.marshalCases()
 	g.forbiddenCases()
 	g.rerunCases()
+	g.sessionCases()
 	g.setFilesCases()
 	g.streamCases()
 	g.protoCases()
